@@ -34,7 +34,8 @@ let acn_op (args : string list) : string =
         let src_s s = hex_of_bytes s.s_cid ^ "." ^ ni s.s_seq ^ "." ^ dbuf_s s.s_buf in
         let h_s h = "|u" ^ ni h.u_uni ^ ":" ^ dbuf_s h.u_buf ^ ":" ^ ni h.u_ap ^ ":" ^
                     String.concat "," (List.map src_s h.u_srcs) in
-        t.steps <- ("e:" ^ es ^ String.concat "" (List.map h_s hs')) :: t.steps)
+        t.steps <- ("e:" ^ es ^ String.concat "" (List.map h_s hs')) :: t.steps;
+        trace_out t ("e:" ^ es ^ String.concat "" (List.map (fun h -> "|u" ^ ni h.u_uni ^ ":" ^ dbuf_s h.u_buf ^ ":" ^ ni h.u_ap) hs')))
       dgs with Exit -> ());
     trace_result t "acn"
   | _ -> "bad-args"
